@@ -511,6 +511,13 @@ def _get_attribute_from_mro(
         # but I haven't thought of one.
         try:
             return KnownValue(getattr(typ, ctx.attr)), typ, True
+        except AttributeError:
+            if on_class and safe_isinstance(
+                inspect.getattr_static(typ, ctx.attr, None), types.DynamicClassAttribute
+            ):
+                # e.g. Color.name: `name` and `value` exist on members only, the
+                # class itself raises AttributeError
+                return UNINITIALIZED_VALUE, object, False
         except Exception:
             pass
     elif safe_isinstance(typ, types.ModuleType):
